@@ -187,6 +187,12 @@ def examples_strategy(draw, tier='quick', allow=lambda c: True,
                                              ('.()+', ',.;:'),
                                              ('_<=>', '?_@^')]))
             xs.extend(['a' + r1 + 'b', 'c' + r2 + 'd'])
+    if draw(st.integers(0, 19)) == 0:
+        # expressions that end in a literal dollar, and strings extending
+        # what they match
+        xs.extend(draw(st.sampled_from([['US$', 'AU$', 'US$5', 'NZ$'],
+                                        ['a$', 'b$', 'a$$'],
+                                        ['x^', 'y^', '^x', 'x^2']])))
     extras = draw(st.lists(st.one_of(
         T.a_text(0, 8) if allow('free') else st.just('x'),
         st.just(''),
